@@ -1442,6 +1442,22 @@ func init() {
 		"fmt.Println":  func(m *Machine, fr *frame, pos token.Pos, args []value) value { return tuple{0, iface{}} },
 		"fmt.Sprint":   func(m *Machine, fr *frame, pos token.Pos, args []value) value { return m.sprint(variadic(args[0]), false) },
 		"fmt.Sprintln": func(m *Machine, fr *frame, pos token.Pos, args []value) value { return m.sprint(variadic(args[0]), true) },
+		"(io/fs.FileMode).IsDir": func(m *Machine, fr *frame, pos token.Pos, args []value) value {
+			u, _ := intBits(args[0])
+			return u&(1<<31) != 0
+		},
+		"(io/fs.FileMode).IsRegular": func(m *Machine, fr *frame, pos token.Pos, args []value) value {
+			u, _ := intBits(args[0])
+			return u&0x8f280000 == 0 // fs.ModeType
+		},
+		"(io/fs.FileMode).Type": func(m *Machine, fr *frame, pos token.Pos, args []value) value {
+			u, _ := intBits(args[0])
+			return uint32(u) & 0x8f280000
+		},
+		"(io/fs.FileMode).Perm": func(m *Machine, fr *frame, pos token.Pos, args []value) value {
+			u, _ := intBits(args[0])
+			return uint32(u) & 0o777
+		},
 		"sort.Slice":       fSortSlice,
 		"sort.SliceStable": fSortSlice,
 		"golang.org/x/exp/utf8string.NewString":             fUtf8NewString,
@@ -1896,6 +1912,11 @@ func (m *Machine) opaqueMethod(o opaque, name string, args []value) value {
 	switch name {
 	case "Close":
 		return iface{}
+	}
+	if o.kind == "fileinfo" {
+		if r, ok := m.fileInfoMethod(o, name); ok {
+			return r
+		}
 	}
 	if o.kind == "sha256" {
 		sh := o.payload.(*shaState)
